@@ -816,7 +816,7 @@ impl Runner {
                 }
             }
         }
-        let out_of_zone = exp.zone.is_some();
+        let out_of_zone = exp.zone.is_some() || exp.beyond96;
         for id in &ask_ids {
             let e = t.asks.entry(id.clone()).or_default();
             if moved {
